@@ -263,16 +263,22 @@ def case(ctx, rnd, i):
         for _ in range(10):
             pos = rnd.randint(a + 1, b)
             depth = rnd.choice([1, 2, 3])
+            ta = None
+            if rnd.random() < 0.4:
+                # a type for the part after the split at every level (as an editor command may pass)
+                nonleaf = [x for x, t in rs.nodes.items() if not t.is_leaf and not t.is_text and not t.required_attrs and x != rs.top]
+                ta = [structure.NodeTypeWithAttrs(S.nodes[rnd.choice(nonleaf)], None) for _ in range(depth)]
             try:
-                ok = structure.can_split(d, pos, depth)
+                ok = structure.can_split(d, pos, depth, ta)
             except Exception:
                 continue
             ctx.count("can_split_inside")
             ctx.ev()
             pd = len(flat.open_stack(tk, pos))
             if ok and pd - depth < depthN:
-                ctx.violation("split-crosses", "can_split(%d, depth=%d) is True although it would split the isolating %s (position depth %d, content depth of the node %d)"
-                              % (pos, depth, ntype, pd, depthN), {**base, "pos": pos, "depth": depth}, {"helper": "can_split"})
+                ctx.violation("split-crosses", "can_split(%d, depth=%d%s) is True although it would split the isolating %s (position depth %d, content depth of the node %d)"
+                              % (pos, depth, ", types_after=%r" % [x.type.name for x in ta] if ta else "", ntype, pd, depthN),
+                              {**base, "pos": pos, "depth": depth}, {"helper": "can_split", "types_after": ta is not None})
             else:
                 ctx.cover([sch.id, "can_split", bool(ok), depth, pd - depthN])
     # ---- Slice.max_open
